@@ -256,7 +256,14 @@ def c12_4(ctx):
               'the width gate raises OverflowError (the type the caller turns into an exit)', '; '.join(unparse(r) for r in raises))
 
 
-RULES = [c12_1, c12_2, c12_3, c12_4]
+def c12_macro_steps(ctx):
+    """Relative offsets are measured from the instruction's own address / last byte: inside a macro that is the step's
+    address and size, which C10.1 establishes."""
+    from rules.c10 import c10_1
+    c10_1(ctx)
+
+
+RULES = [c12_1, c12_2, c12_3, c12_4, c12_macro_steps]
 
 _P = 'assembler/bytecode/parts.py'
 _R = 'assembler/model/operand/types/relative_address.py'
